@@ -897,14 +897,16 @@ class Interp:
             raise Unsupported('call of a generator method in value position at %s' % s.loc(n))
         out = []
         a = m.args
-        if a.vararg or a.kwarg or a.kwonlyargs or a.posonlyargs:
+        if a.vararg or a.kwarg:
             raise Unsupported('signature of %s' % name)
         decos = {d.id for d in m.decorator_list if isinstance(d, ast.Name)} | {d.attr for d in m.decorator_list if isinstance(d, ast.Attribute)}
         if decos - {'staticmethod', 'classmethod'}:
             raise Unsupported('decorated method %s (%s) called at %s' % (name, sorted(decos), s.loc(n)))
         static = 'staticmethod' in decos or free
-        params = [x.arg for x in a.args] if static else [x.arg for x in a.args][1:]
-        first = None if static else (a.args[0].arg if a.args else None)
+        allpos = [x.arg for x in a.posonlyargs + a.args]          # positional-only parameters bind like the others
+        params = allpos if static else allpos[1:]
+        first = None if static else (allpos[0] if allpos else None)
+        kwonly = [(x.arg, d) for x, d in zip(a.kwonlyargs, a.kw_defaults)]
         for q, vals in s.evargs(n.args, p):
             kwcur = [(q, {})]
             for k in n.keywords:
@@ -941,6 +943,21 @@ class Interp:
                                 nl2 = dict(nl)
                                 nl2[pn] = dv
                                 nxt.append((r3, nl2))
+                    dcur = nxt
+                for kn_, kd_ in kwonly:               # keyword-only parameters: the keyword given, else the default
+                    nxt = []
+                    for r2, nl in dcur:
+                        if kn_ in kw:
+                            nl = dict(nl)
+                            nl[kn_] = kw[kn_]
+                            nxt.append((r2, nl))
+                        elif kd_ is not None:
+                            for r3, dv in s.ev(kd_, r2):
+                                nl2 = dict(nl)
+                                nl2[kn_] = dv
+                                nxt.append((r3, nl2))
+                        else:
+                            raise Unsupported('missing keyword-only argument %s in call at %s' % (kn_, s.loc(n)))
                     dcur = nxt
                 for r2, nl in dcur:
                     saved = r2.locs
